@@ -14,15 +14,45 @@ CLASS_NAMES = ["Foo", "Bar", "_Hidden", "__Priv", "Baz", "_Kls__N", "Qux", "Main
 METHOD_NAMES = ["get", "put", "_prot", "__priv", "__len__", "__call__", "_x__", "run", "__a__b", "_Foo__fake", "main", "test_m"]
 
 
+HELPER_SRC = "\n".join([
+    "import abc", "import enum", "import functools",
+    "def hf_public(a):", "    return a", "def _hf_prot(a):", "    return a",
+    "def hdeco(f):", "    def helper_wrapper(*a, **k):", "        return f(*a, **k)", "    return helper_wrapper",
+    "def hmake(n):", "    def made_in_helper(x):", "        return x + n", "    return made_in_helper",
+    "class HelperBase:", "    def inherited(self):", "        return 1", "    def _hprot(self):", "        return 2",
+    "class HelperOther:", "    def other(self):", "        return 3",
+    "class HelperColor(enum.Enum):", "    RED = 1", "    GREEN = 2",
+    "HELPER_CONST = 3"]) + "\n"
+
+FACTORY_NAMES = ["mk_a", "_mk_b", "__mk_c", "build", "_build"]
+INNER_NAMES = ["inner_pub", "_inner_prot", "__inner_priv", "__inner_dun__", "scale", "_add"]
+
+
+def layout(k, variant):
+    """Where the SUT and the helper module live.  The helper's dotted name is a suffix / prefix /
+    extension of the SUT's name in variants 1-5 (a filter on the defining module must be an exact
+    comparison)."""
+    base = f"c27sut_{k}"
+    if variant == 1:      # helper = <pkg>.<sut name>
+        return base, f"{base}.py", f"c27vend_{k}.{base}", {f"c27vend_{k}/__init__.py": "", f"c27vend_{k}/{base}.py": HELPER_SRC}
+    if variant == 2:      # helper = <sut name>x
+        return base, f"{base}.py", f"{base}x", {f"{base}x.py": HELPER_SRC}
+    if variant == 3:      # helper = x_<sut name>
+        return base, f"{base}.py", f"x_{base}", {f"x_{base}.py": HELPER_SRC}
+    if variant == 4:      # SUT = <pkg>.<name>, helper = top-level <name>
+        return f"c27p_{k}.{base}", f"c27p_{k}/{base}.py", base, {f"c27p_{k}/__init__.py": "", f"{base}.py": HELPER_SRC}
+    if variant == 5:      # SUT = package, helper = <sut>.sub
+        return base, f"{base}/__init__.py", f"{base}.sub", {f"{base}/sub.py": HELPER_SRC}
+    return base, f"{base}.py", f"c27helper_{k}", {f"c27helper_{k}.py": HELPER_SRC}
+
+
 def gen_case(rng, k):
-    """Returns dict(sut=source, helper=source, name=..., helper_name=..., visibility, ignore_methods, ignore_modules)."""
-    sut = f"c27sut_{k}"
-    helper = f"c27helper_{k}"
-    h = ["import abc", "def hf_public(a):", "    return a", "def _hf_prot(a):", "    return a",
-         "class HelperBase:", "    def inherited(self):", "        return 1", "    def _hprot(self):", "        return 2",
-         "class HelperOther:", "    def other(self):", "        return 3", "HELPER_CONST = 3"]
+    """Returns dict(sut=source, sut_path, extra_files, name, helper_name, visibility, ignore_methods,
+    ignore_modules)."""
+    variant = rng.choice([0, 0, 1, 1, 2, 3, 4, 5])
+    sut, sut_path, helper, extra = layout(k, variant)
     L = ["import abc", "import enum", "import functools", f"import {helper}",
-         f"from {helper} import hf_public, _hf_prot, HelperBase, HelperOther"]
+         f"from {helper} import hf_public, _hf_prot, HelperBase, HelperOther, HelperColor, hdeco, hmake"]
     if rng.random() < 0.3:
         L.append(f"from {helper} import hf_public as reexported")
     fnames = rng.sample(FUNC_NAMES, rng.choice([2, 3, 5, 7]))
@@ -45,6 +75,42 @@ def gen_case(rng, k):
         else:
             L += [f"def {fn}(a, b=1):", "    return a"]
     L.insert(5, "HELPER_FLAG = True")
+    # closures / partials bound at module level: factory name vs produced function's own name
+    n_fac = rng.choice([0, 1, 2, 3])
+    facs = rng.sample(FACTORY_NAMES, n_fac)
+    for i, fac in enumerate(facs):
+        inner = rng.choice(INNER_NAMES)
+        bind = rng.choice(["bound_pub", "_bound_prot", "__bound_priv"]) + str(i)
+        if rng.random() < 0.3:     # depth 2
+            mid = rng.choice(["mid", "_mid"])
+            L += [f"def {fac}(a):", f"    def {mid}(b):", f"        def {inner}(c):", "            return a + b + c",
+                  f"        return {inner}", f"    return {mid}", f"{bind} = {fac}(1)(2)"]
+            if rng.random() < 0.4:
+                L += [f"{bind}_mid = {fac}(5)"]
+        else:
+            L += [f"def {fac}(n):", f"    def {inner}(x):", "        return x + n", f"    return {inner}", f"{bind} = {fac}(2)"]
+            if rng.random() < 0.3:
+                L += [f"{bind}_again = {fac}(3)"]
+        c = rng.random()
+        if c < 0.2:
+            L += [f"part{i} = functools.partial({bind}, 1)"]
+        elif c < 0.35:
+            L += [f"lam{i} = (lambda f: (lambda x: f(x)))({bind})"]
+    if rng.random() < 0.25:
+        L += ["from_helper_factory = hmake(1)"]
+    # decorated functions
+    if rng.random() < 0.45:
+        dn = rng.choice(["deco", "_deco"])
+        wn = rng.choice(["wrapper", "_wrapper"])
+        wraps = rng.random() < 0.5
+        L += [f"def {dn}(f):"] + (["    @functools.wraps(f)"] if wraps else []) + [
+            f"    def {wn}(*a, **k):", "        return f(*a, **k)", f"    return {wn}"]
+        for tn in rng.sample(["shown", "_shadow", "__deep", "visible2"], rng.choice([1, 2])):
+            L += [f"@{dn}", f"def {tn}(a):", "    return a"]
+        if rng.random() < 0.4:
+            L += [f"wrapped_foreign = {dn}(hf_public)"]
+    if rng.random() < 0.2:
+        L += ["@hdeco", f"def {rng.choice(['via_helper', '_via_helper'])}(a):", "    return a"]
     cnames = rng.sample(CLASS_NAMES, rng.choice([1, 2, 3, 4]))
     prev = None
     for cn in cnames:
@@ -101,8 +167,14 @@ def gen_case(rng, k):
         pool = [f"{sut}.{fn}" for fn in fnames] + [f"{helper}.hf_public", f"{sut}.nothing", f"{sut}.{cnames[0]}.get"]
         ign = rng.sample(pool, min(len(pool), rng.choice([1, 2])))
     ign_mod = [helper] if rng.random() < 0.1 else []
-    return {"sut": src, "helper": "\n".join(h) + "\n", "name": sut, "helper_name": helper, "visibility": vis,
-            "ignore_methods": ign, "ignore_modules": ign_mod}
+    return {"sut": src, "sut_path": sut_path, "extra_files": extra, "name": sut, "helper_name": helper,
+            "visibility": vis, "ignore_methods": ign, "ignore_modules": ign_mod}
+
+
+def case_files(case):
+    if "sut_path" in case:
+        return {case["sut_path"]: case["sut"], **case["extra_files"]}
+    return {f"{case['name']}.py": case["sut"], f"{case['helper_name']}.py": case["helper"]}
 
 
 # ---------------------------------------------------------------------------------------------
@@ -113,8 +185,19 @@ def run_impl(case, scratch: Path):
     from pynguin.utils.generic.genericaccessibleobject import (
         GenericConstructor, GenericEnum, GenericFunction, GenericMethod)
 
-    (scratch / f"{case['name']}.py").write_text(case["sut"])
-    (scratch / f"{case['helper_name']}.py").write_text(case["helper"])
+    files = case_files(case)
+    roots = {p.split("/")[0].removesuffix(".py") for p in files}
+    for rel, src in files.items():
+        (scratch / rel).parent.mkdir(parents=True, exist_ok=True)
+        (scratch / rel).write_text(src)
+
+    def purge():
+        for m in list(sys.modules):
+            if m.split(".")[0] in roots:
+                del sys.modules[m]
+    purge()
+    old_dwb = sys.dont_write_bytecode
+    sys.dont_write_bytecode = True   # the same path may be rewritten within a second (shrinking)
     old = (config.configuration.element_visibility, config.configuration.ignore_methods,
            config.configuration.ignore_modules, config.configuration.module_name)
     sys.path.insert(0, str(scratch))
@@ -126,6 +209,7 @@ def run_impl(case, scratch: Path):
         config.configuration.module_name = case["name"]
         cluster = generate_test_cluster(case["name"])
         members = abstract_members(sys.modules[case["name"]], case)
+        rt = runtime_functions(sys.modules[case["name"]], case)
         out = []
         for o in cluster.accessible_objects_under_test:
             if isinstance(o, GenericEnum):
@@ -143,13 +227,30 @@ def run_impl(case, scratch: Path):
                 out.append(("function", fn.__module__, fn.__qualname__, ""))
             else:
                 out.append(("other", type(o).__name__, repr(o), ""))
-        return sorted(out, key=repr), members
+        return sorted(out, key=repr), members, rt
     finally:
         sys.path.remove(str(scratch))
         (config.configuration.element_visibility, config.configuration.ignore_methods,
          config.configuration.ignore_modules, config.configuration.module_name) = old
-        for m in (case["name"], case["helper_name"]):
-            sys.modules.pop(m, None)
+        sys.dont_write_bytecode = old_dwb
+        purge()
+
+
+def runtime_functions(mod, case):
+    """Facts about the function objects bound in the module's namespace, read from the objects
+    themselves (__name__, __module__, __wrapped__): input of the independent oracle."""
+    import functools
+
+    out = []
+    ign = set(case["ignore_methods"])
+    for bind, obj in list(vars(mod).items()):
+        if inspect.isfunction(obj) or (isinstance(obj, functools._lru_cache_wrapper) and inspect.isfunction(inspect.unwrap(obj))):
+            u = inspect.unwrap(obj)
+            out.append({"bind": bind, "name": obj.__name__, "module": obj.__module__, "qual": u.__qualname__,
+                        "umodule": u.__module__,
+                        "async": inspect.iscoroutinefunction(obj) or inspect.isasyncgenfunction(obj),
+                        "listed": f"{u.__module__}.{u.__qualname__}" in ign})
+    return out
 
 
 def abstract_members(mod, case):
@@ -163,6 +264,12 @@ def abstract_members(mod, case):
     sut = case["name"]
     ign = set(case["ignore_methods"])
     out, seen_f, seen_c = [], set(), set()
+    assigned_lambda_lines = set()
+    if "sut" in case:
+        for node in ast.parse(case["sut"]).body:
+            if (isinstance(node, ast.Assign) and len(node.targets) == 1 and isinstance(node.targets[0], ast.Name)
+                    and isinstance(node.value, ast.Lambda)):
+                assigned_lambda_lines.add(node.value.lineno)
 
     def is_async(f):
         return inspect.iscoroutinefunction(f) or inspect.isasyncgenfunction(f)
@@ -196,8 +303,13 @@ def abstract_members(mod, case):
             if obj in seen_f:
                 continue
             seen_f.add(obj)
+            reached = f.__module__ not in case["ignore_modules"]
+            if obj.__qualname__.rpartition(".")[2] == "<lambda>":
+                # lambda naming (outside the model): only `name = lambda ...` statements of the module
+                # keep their lambda; the analysis finds them by line number
+                reached = reached and obj.__code__.co_firstlineno in assigned_lambda_lines
             out.append({"kind": "Function", "name": obj.__qualname__.rpartition(".")[2], "own": obj.__module__ == sut,
-                        "reached": f.__module__ not in case["ignore_modules"], "async": is_async(obj),
+                        "reached": reached, "async": is_async(obj),
                         "listed": f"{f.__module__}.{f.__qualname__}" in ign,
                         "main_test": f.__qualname__.startswith(("main", "test")),
                         "key": ("function", f.__module__, f.__qualname__, "")})
@@ -273,12 +385,7 @@ def oracle(case):
                 yield st
 
     for st in top_level(tree.body):
-        if isinstance(st, ast.FunctionDef):
-            if eligible(st.name, vis) and f"{sut}.{st.name}" not in ign:
-                must.add(("function", st.name, ""))
-        elif isinstance(st, ast.Assign) and isinstance(st.value, ast.Lambda):
-            free.add(("function", "<lambda>", ""))
-        elif isinstance(st, ast.ClassDef):
+        if isinstance(st, ast.ClassDef):
             bases = [ast.unparse(b) for b in st.bases]
             is_enum = "enum.Enum" in bases
             own_abs = {x.name for x in st.body if isinstance(x, ast.FunctionDef)
@@ -321,10 +428,22 @@ def oracle(case):
     return {"must": must, "free": free, "why": why}
 
 
-def judge(case, observed):
-    """Compare the real cluster with the oracle: list of (signature, message)."""
+def judge(case, observed, rt):
+    """Compare the real cluster with the oracle: list of (signature, message).
+
+    Functions: decided from the function objects bound at module level (`rt`): a function is expected
+    under test iff its own __module__ is the SUT, its own __name__ (= last __qualname__ component) is
+    eligible, it is not a coroutine and its qualified name is not listed in ignore_methods.  Lambdas
+    are unconstrained."""
     o = oracle(case)
     sut = case["name"]
+    for f in rt:
+        key = ("function", f["qual"], "")
+        if f["name"] == "<lambda>" or f["qual"].endswith("<lambda>"):
+            o["free"].add(key)
+        elif (f["module"] == sut and f["umodule"] == sut and eligible(f["name"], case["visibility"])
+              and not f["async"] and not f["listed"]):
+            o["must"].add(key)
     out = []
     seen = set()
     for ent in observed:
